@@ -22,7 +22,12 @@ def build(spec, table, cur):
         return Predicate.FALSE
     if t == "base":
         c = spec["c"]
-        return Predicate(lambda node, c=c: bool(table[c][cur(node)]), use_raw_node_id=False, static=spec["static"])
+        def cond(node, c=c):
+            v = table[c][cur(node)]
+            if v is None:         # a condition written for another node shape
+                raise AttributeError("'Constant' object has no attribute 'func'")
+            return bool(v)
+        return Predicate(cond, use_raw_node_id=False, static=spec["static"])
     parts = [build(p, table, cur) for p in spec["parts"]]
     return CompositePredicate.any(parts) if t == "any" else CompositePredicate.all(parts)
 
@@ -39,10 +44,15 @@ def run_pred(c):
     rows = []
     for i in range(n):
         state["i"] = i
-        try:
-            rows.append([bool(p(None)), bool(p.dynamic_call(None))])
-        except AssertionError:
-            rows.append("assert")
+        row = []
+        for f in (p, p.dynamic_call):
+            try:
+                row.append(bool(f(None)))
+            except AssertionError:
+                row.append("assert")
+            except AttributeError:
+                row.append("raise")
+        rows.append("assert" if "assert" in row else row)
     return {"ident": ident(p), "static": bool(p.static), "rows": rows}
 
 
@@ -79,7 +89,11 @@ def run_inv(c, ci):
         with ExitStack() as st:
             for t in tracers:
                 st.enter_context(t.tracing_enabled())
-            env = tracers[-1].exec(src, {})
+            try:
+                env = tracers[-1].exec(src, {})
+            except AttributeError as e:
+                # at delivery the exceptions of conditions are swallowed: this one comes from the rewrite (the program itself is `u = <int>` lines)
+                return {"crash": "an exception of a condition escaped the rewrite: %s" % e}
     finally:
         for t in tracers:
             type(t).clear_instance()
